@@ -103,6 +103,9 @@ pub enum Produce {
     Incoming { connect_first: bool },
     AcceptUnix,
     Open,
+    /// `File::open` of a FIFO nobody writes to: on the polling driver the open blocks in a thread-pool
+    /// job until the harness opens the write end (io_uring: treated as `Open`); never awaited
+    OpenFifo,
     Connect,
     Pipe,
     UdpBind,
@@ -155,6 +158,11 @@ pub struct FdCase {
     /// while the finding "descriptor-leaked/close-in-flight-at-runtime-drop" is listed as known)
     #[serde(default)]
     pub close_in_flight_at_drop: bool,
+    /// with `abrupt_end`: a thread-pool operation may still be alive when the runtime is dropped
+    /// (false: pool operations are finished first — the generator's setting while the finding
+    /// "descriptor-leaked/pool-op-outlived-runtime" is listed as known)
+    #[serde(default)]
+    pub pool_op_at_drop: bool,
 }
 
 // ------------------------------------------------------------------------------------------------
@@ -324,20 +332,36 @@ enum TaskKind {
     Op { certain_pending: bool },
 }
 
-/// Storage of operations currently alive in the driver (from the `compio_verif` event sink): every
-/// one of them may hold a clone of a shared descriptor.
-static LIVE_OPS: std::sync::Mutex<Option<std::collections::HashSet<usize>>> = std::sync::Mutex::new(None);
+/// What the `compio_verif` event sink has reported for the running case.
+#[derive(Default)]
+struct OpsSeen {
+    /// storage of operations currently alive in the driver: each may hold a clone of a shared descriptor
+    live: std::collections::HashSet<usize>,
+    /// operations handed to the thread pool whose storage is still alive
+    pool: std::collections::HashSet<usize>,
+    /// pool operations whose job has finished running
+    pool_done: std::collections::HashSet<usize>,
+}
+
+static OPS: std::sync::Mutex<Option<OpsSeen>> = std::sync::Mutex::new(None);
 
 fn sink(e: compio_driver::verif::Event) {
-    use compio_driver::verif::Event;
-    if let Ok(mut g) = LIVE_OPS.lock() {
-        if let Some(set) = g.as_mut() {
+    use compio_driver::verif::{Event, SubmitPath};
+    if let Ok(mut g) = OPS.lock() {
+        if let Some(o) = g.as_mut() {
             match e {
                 Event::OpAlloc { id } => {
-                    set.insert(id);
+                    o.live.insert(id);
                 }
                 Event::OpFree { id } => {
-                    set.remove(&id);
+                    o.live.remove(&id);
+                    o.pool.remove(&id);
+                }
+                Event::Submit { id, path: SubmitPath::Blocking } => {
+                    o.pool.insert(id);
+                }
+                Event::PoolDone { id } => {
+                    o.pool_done.insert(id);
                 }
                 _ => {}
             }
@@ -346,7 +370,16 @@ fn sink(e: compio_driver::verif::Event) {
 }
 
 fn live_ops() -> usize {
-    LIVE_OPS.lock().ok().and_then(|g| g.as_ref().map(|s| s.len())).unwrap_or(0)
+    OPS.lock().ok().and_then(|g| g.as_ref().map(|o| o.live.len())).unwrap_or(0)
+}
+
+/// Thread-pool operations whose storage is still alive (job running, or finished and not yet released).
+fn pool_ops_alive() -> Vec<usize> {
+    OPS.lock().ok().and_then(|g| g.as_ref().map(|o| o.pool.iter().copied().collect())).unwrap_or_default()
+}
+
+fn pool_jobs_done(ids: &[usize]) -> bool {
+    OPS.lock().ok().and_then(|g| g.as_ref().map(|o| ids.iter().all(|i| o.pool_done.contains(i)))).unwrap_or(true)
 }
 
 struct WakeFlag(AtomicBool);
@@ -379,6 +412,8 @@ struct Lab {
     handles: Vec<Handle>,
     tasks: Vec<Task>,
     closers: Vec<Closer>,
+    /// FIFOs on which a thread-pool `open` may be blocked until the harness opens the write end
+    fifos: Vec<PathBuf>,
     /// descriptors opened by the harness itself (feeds, clients, sentinels)
     harness_fds: Vec<RawFd>,
     sentinels: Vec<(RawFd, Ident)>,
@@ -531,6 +566,22 @@ impl Lab {
     }
 }
 
+/// Let every `open` that is blocked on one of the FIFOs return: open the write end (non-blocking; it
+/// succeeds exactly when a reader is waiting in `open`) and close it again.  A FIFO whose reader has
+/// not arrived yet (the pool thread was not scheduled so far) stays in the list for the next try.
+fn release_fifos(fifos: &mut Vec<PathBuf>) {
+    fifos.retain(|p| {
+        let Ok(c) = std::ffi::CString::new(p.as_os_str().as_encoded_bytes()) else { return false };
+        let fd = unsafe { libc::open(c.as_ptr(), libc::O_WRONLY | libc::O_NONBLOCK | libc::O_CLOEXEC) };
+        if fd >= 0 {
+            unsafe { libc::close(fd) };
+            false
+        } else {
+            true
+        }
+    });
+}
+
 fn dup_fd(fd: RawFd) -> Option<RawFd> {
     let r = unsafe { libc::fcntl(fd, libc::F_DUPFD_CLOEXEC, 600) };
     (r >= 0).then_some(r)
@@ -572,7 +623,7 @@ pub fn run_fd(case: &FdCase) -> Outcome {
         Err(e) => return Outcome::inconclusive(format!("tempdir: {e}")),
     };
     let before = stable_snapshot();
-    *LIVE_OPS.lock().unwrap() = Some(Default::default());
+    *OPS.lock().unwrap() = Some(Default::default());
     compio_driver::verif::set_sink(Some(sink));
     let out = run_inner(case, tmp.path().to_path_buf());
     compio_driver::verif::set_sink(None);
@@ -600,7 +651,12 @@ pub fn run_fd(case: &FdCase) -> Outcome {
                 _ => "other",
             };
             let obj = LAST_OBJS.with(|o| o.borrow().iter().find(|x| x.0 == *id).copied());
+            let pool_at_drop = POOL_AT_DROP.with(|p| p.get());
             let sig = match obj {
+                // precondition observed through the driver's event sink: a thread-pool operation was
+                // still alive when the runtime was dropped (since /repo 634e9f0 such an operation is
+                // deliberately leaked instead of being released on the pool thread)
+                _ if case.abrupt_end && pool_at_drop > 0 => "C06/descriptor-leaked/pool-op-outlived-runtime".to_string(),
                 Some((_, _name, true, false)) if case.abrupt_end => "C06/descriptor-leaked/close-in-flight-at-runtime-drop".to_string(),
                 _ => format!("C06/descriptor-leaked/{what}"),
             };
@@ -634,12 +690,15 @@ pub fn run_fd(case: &FdCase) -> Outcome {
 }
 
 thread_local! {
+    /// thread-pool operations whose storage was alive when the runtime of the case just run was dropped abruptly
+    static POOL_AT_DROP: std::cell::Cell<usize> = const { std::cell::Cell::new(0) };
     /// (identity, kind, close() started, close() finished) of the objects of the case just run
     static LAST_OBJS: RefCell<Vec<(Ident, &'static str, bool, bool)>> = const { RefCell::new(vec![]) };
 }
 
 fn run_inner(case: &FdCase, dir: PathBuf) -> Result<(Vec<String>, bool), Outcome> {
     LAST_OBJS.with(|o| o.borrow_mut().clear());
+    POOL_AT_DROP.with(|p| p.set(0));
     let cfg = RtCfg::new(case.drv);
     let rt = build_rt(&cfg).map_err(|e| Outcome::inconclusive(format!("runtime build: {e}")))?;
     let lab = Rc::new(RefCell::new(Lab {
@@ -647,6 +706,7 @@ fn run_inner(case: &FdCase, dir: PathBuf) -> Result<(Vec<String>, bool), Outcome
         handles: vec![],
         tasks: vec![],
         closers: vec![],
+        fifos: vec![],
         harness_fds: vec![],
         sentinels: vec![],
         sentinel_dir: dir.clone(),
@@ -908,6 +968,19 @@ fn run_inner(case: &FdCase, dir: PathBuf) -> Result<(Vec<String>, bool), Outcome
                         let _ = std::fs::write(&p, b"x");
                         Some(Box::pin(async move { File::open(&p).await.map(|f| vec![H::File(f)]) }))
                     }
+                    Produce::OpenFifo => {
+                        let p = dir.join(format!("fifo{si}"));
+                        if case.drv == Drv::Poll {
+                            if let Ok(c) = std::ffi::CString::new(p.as_os_str().as_encoded_bytes()) {
+                                unsafe { libc::mkfifo(c.as_ptr(), 0o600) };
+                            }
+                            lab.borrow_mut().fifos.push(p.clone());
+                            lab.borrow_mut().label("pool-op-blocked");
+                        } else {
+                            let _ = std::fs::write(&p, b"x");
+                        }
+                        Some(Box::pin(async move { File::open(&p).await.map(|f| vec![H::File(f)]) }))
+                    }
                     Produce::Connect => tcp_l.as_ref().map(|(_, a)| {
                         let a = *a;
                         Box::pin(async move { TcpStream::connect(a).await.map(|s| vec![H::Tcp(s)]) }) as Pin<Box<dyn Future<Output = Out>>>
@@ -923,7 +996,8 @@ fn run_inner(case: &FdCase, dir: PathBuf) -> Result<(Vec<String>, bool), Outcome
                     connect_tcp(a, &mut clients);
                 }
                 lab.borrow_mut().harness_fds.extend(clients);
-                match cancel_after {
+                let cancel_after = if matches!(what, Produce::OpenFifo) { Some(cancel_after.unwrap_or(2)) } else { *cancel_after };
+                match &cancel_after {
                     Some(k) => {
                         turns(&rt, *k as usize, Duration::from_millis(1));
                         if *half {
@@ -965,7 +1039,25 @@ fn run_inner(case: &FdCase, dir: PathBuf) -> Result<(Vec<String>, bool), Outcome
         lab.borrow_mut().audit(&when);
     }
 
-    if case.abrupt_end && lab.borrow().violation.is_none() {
+    let mut abrupt = case.abrupt_end && lab.borrow().violation.is_none();
+    let mut pool_drained = false;
+    if abrupt && !case.pool_op_at_drop && !pool_ops_alive().is_empty() {
+        // known finding: not generated — thread-pool operations are finished (blocked ones released)
+        // and their storage released before the runtime goes; if that does not happen in time the
+        // case ends the graceful way instead
+        let start = std::time::Instant::now();
+        while start.elapsed() < watchdog_secs(10) && !pool_ops_alive().is_empty() {
+            release_fifos(&mut lab.borrow_mut().fifos);
+            turns(&rt, 1, Duration::from_millis(1));
+            lab.borrow_mut().service_closers(&rt, "before the abrupt end", false);
+        }
+        pool_drained = true;
+        if !pool_ops_alive().is_empty() {
+            abrupt = false;
+            lab.borrow_mut().label("abrupt-end-given-up:pool-ops-alive");
+        }
+    }
+    if abrupt {
         // ---- abrupt end: the runtime goes first, with everything still in flight
         let pending_ops = lab.borrow().tasks.iter().filter(|t| !t.jh.is_finished()).count();
         let mut labels: Vec<String> = vec![];
@@ -981,6 +1073,18 @@ fn run_inner(case: &FdCase, dir: PathBuf) -> Result<(Vec<String>, bool), Outcome
         if lab.borrow().closers.iter().any(|c| c.primary && c.result.is_none()) {
             labels.push("close-pending-at-runtime-drop".into());
         }
+        let mut fifos = std::mem::take(&mut lab.borrow_mut().fifos);
+        if pool_drained {
+            labels.push("excluded-known:pool-op-at-runtime-drop".into());
+        }
+        let pool_at_drop = pool_ops_alive();
+        POOL_AT_DROP.with(|p| p.set(pool_at_drop.len()));
+        if std::env::var("VERIF_VERBOSE").is_ok() && !pool_at_drop.is_empty() && !case.pool_op_at_drop {
+            eprintln!("POOL-OPS-NOT-DRAINED {}: {}", pool_at_drop.len(), vcore::serde_json::to_string(case).unwrap_or_default());
+        }
+        if !pool_at_drop.is_empty() {
+            labels.push("pool-op-alive-at-runtime-drop".into());
+        }
         LAST_OBJS.with(|o| *o.borrow_mut() = lab.borrow().objs.iter().map(|x| (x.id, x.name, x.closer_started, x.closer_done)).collect());
         let (sentinels, harness_fds, close_raced, nobj) = {
             let mut l = lab.borrow_mut();
@@ -989,6 +1093,16 @@ fn run_inner(case: &FdCase, dir: PathBuf) -> Result<(Vec<String>, bool), Outcome
         };
         drop((tcp_l, unix_l));
         drop(rt);
+        // jobs that outlived the runtime run to their end now (so that what they leave behind is there
+        // when the table is scanned)
+        let start = std::time::Instant::now();
+        loop {
+            release_fifos(&mut fifos);
+            if pool_jobs_done(&pool_at_drop) || start.elapsed() > Duration::from_secs(10) {
+                break;
+            }
+            std::thread::sleep(Duration::from_millis(1));
+        }
         // now the futures and handles that outlived it
         let (tasks, closers, handles) = {
             let mut l = lab.borrow_mut();
@@ -1022,6 +1136,8 @@ fn run_inner(case: &FdCase, dir: PathBuf) -> Result<(Vec<String>, bool), Outcome
         return Ok((labels, nontrivial));
     }
     // ---- end phase: let go of everything; a waiting close() must now resolve
+    let mut fifos = std::mem::take(&mut lab.borrow_mut().fifos);
+    release_fifos(&mut fifos);
     let handles = std::mem::take(&mut lab.borrow_mut().handles);
     rt.enter(|| drop(handles));
     let ops = std::mem::take(&mut lab.borrow_mut().tasks);
@@ -1033,6 +1149,7 @@ fn run_inner(case: &FdCase, dir: PathBuf) -> Result<(Vec<String>, bool), Outcome
     let mut turn = 0;
     let mut rescued = false;
     while lab.borrow().violation.is_none() && !all_closed(&lab.borrow()) {
+        release_fifos(&mut fifos);
         turns(&rt, 1, Duration::from_millis(2));
         lab.borrow_mut().service_closers(&rt, "end phase", false);
         turn += 1;
@@ -1085,7 +1202,14 @@ fn run_inner(case: &FdCase, dir: PathBuf) -> Result<(Vec<String>, bool), Outcome
     }
     lab.borrow_mut().audit("at the end");
     // every operation storage (incl. thread-pool jobs still running) must be gone before the table is judged
-    if !drive(&rt, || live_ops() == 0, watchdog) {
+    if !drive(
+        &rt,
+        || {
+            release_fifos(&mut fifos);
+            live_ops() == 0
+        },
+        watchdog,
+    ) {
         drop(rt);
         return Err(Outcome::inconclusive(format!("watchdog: {} operations still alive in the driver at the end", live_ops())));
     }
@@ -1135,6 +1259,7 @@ fn produce() -> impl Strategy<Value = Produce> + Clone {
         2 => any::<bool>().prop_map(|connect_first| Produce::Incoming { connect_first }),
         1 => Just(Produce::AcceptUnix),
         2 => Just(Produce::Open),
+        1 => Just(Produce::OpenFifo),
         2 => Just(Produce::Connect),
         1 => Just(Produce::Pipe),
         1 => Just(Produce::UdpBind),
@@ -1162,11 +1287,12 @@ fn case_strategy() -> impl Strategy<Value = FdCase> + Clone {
         vec(step(), 0..=24),
         prop_oneof![3 => Just(false), 1 => Just(true)],
     )
-        .prop_map(|(drv, objects, steps, abrupt_end)| FdCase { drv, objects, steps, second_close: !EXCLUDE_SECOND_CLOSE.load(Ordering::Relaxed), abrupt_end, close_in_flight_at_drop: !EXCLUDE_CLOSE_IN_FLIGHT.load(Ordering::Relaxed) })
+        .prop_map(|(drv, objects, steps, abrupt_end)| FdCase { drv, objects, steps, second_close: !EXCLUDE_SECOND_CLOSE.load(Ordering::Relaxed), abrupt_end, close_in_flight_at_drop: !EXCLUDE_CLOSE_IN_FLIGHT.load(Ordering::Relaxed), pool_op_at_drop: !EXCLUDE_POOL_OP.load(Ordering::Relaxed) })
 }
 
 static EXCLUDE_SECOND_CLOSE: AtomicBool = AtomicBool::new(false);
 static EXCLUDE_CLOSE_IN_FLIGHT: AtomicBool = AtomicBool::new(false);
+static EXCLUDE_POOL_OP: AtomicBool = AtomicBool::new(false);
 
 /// Consecutive cases that ended on a watchdog: when the machinery is evidently not measuring
 /// anything (the run will end as "infrastructure" anyway) the watchdogs shrink so that it ends soon.
@@ -1185,12 +1311,15 @@ fn main() {
     if s.known_signatures("C06").iter().any(|k| k.starts_with("C06/descriptor-leaked/close-in-flight-at-runtime-drop")) {
         EXCLUDE_CLOSE_IN_FLIGHT.store(true, Ordering::Relaxed);
     }
+    if s.known_signatures("C06").contains("C06/descriptor-leaked/pool-op-outlived-runtime") {
+        EXCLUDE_POOL_OP.store(true, Ordering::Relaxed);
+    }
     let mut p = Part::new(
         "C06",
         "same-thread",
         "case = driver {io_uring, poll} x 1-2 initial objects (file, pipe pair, TCP pair, Unix stream pair) x program of 0-24 steps over the live handle / task tables: Clone(h), DropHandle(h), \
          StartOp(h, through the wrapper or as a raw op holding only the shared descriptor, pending read or immediate op), Feed(h), CancelOp(t), Close(h) = close().await as a task polled by later \
-         turns, Turn(k), PollOnly (driver half of a turn only), Produce(accept / incoming() / Unix accept / File::open / TcpStream::connect / pipe::anonymous / UdpSocket::bind, future dropped after 0-4 loop turns or awaited and the \
+         turns, Turn(k), PollOnly (driver half of a turn only), Produce(accept / incoming() / Unix accept / File::open (also of a FIFO without writer: a thread-pool open blocked until the harness releases it) / TcpStream::connect / pipe::anonymous / UdpSocket::bind, future dropped after 0-4 loop turns or awaited and the \
          descriptor adopted as a new object). Oracle: fstat scan of the descriptor table before / after the case and of the case's objects after every step, sentinel opened after every observed \
          close. Non-trivial = a close() was started or pending while another handle or pending operation held the same descriptor, or a producing operation's future was dropped; distinct = \
          distinct serialised case.",
@@ -1206,12 +1335,24 @@ fn main() {
     ];
     p.regressions = vec![
         (
+            "pool-op-outlives-runtime",
+            FdCase {
+                drv: Drv::Poll,
+                objects: vec![ObjKind::Pipe],
+                steps: vec![Step::Produce { what: Produce::OpenFifo, cancel_after: Some(1), half: false }],
+                second_close: true,
+                abrupt_end: true,
+                close_in_flight_at_drop: true,
+                pool_op_at_drop: true,
+            },
+        ),
+        (
             "close-op-in-flight-at-runtime-drop",
-            FdCase { drv: Drv::IoUring, objects: vec![ObjKind::File], steps: vec![Step::Close { h: 0 }], second_close: true, abrupt_end: true, close_in_flight_at_drop: true },
+            FdCase { drv: Drv::IoUring, objects: vec![ObjKind::File], steps: vec![Step::Close { h: 0 }], second_close: true, abrupt_end: true, close_in_flight_at_drop: true, pool_op_at_drop: true },
         ),
         (
             "second-close-loses-wakeup",
-            FdCase { drv: Drv::IoUring, objects: vec![ObjKind::File], steps: vec![Step::Clone { h: 0 }, Step::Close { h: 0 }, Step::Close { h: 0 }], second_close: true, abrupt_end: false, close_in_flight_at_drop: true },
+            FdCase { drv: Drv::IoUring, objects: vec![ObjKind::File], steps: vec![Step::Clone { h: 0 }, Step::Close { h: 0 }, Step::Close { h: 0 }], second_close: true, abrupt_end: false, close_in_flight_at_drop: true, pool_op_at_drop: true },
         ),
         (
         "close-waits-for-op",
@@ -1233,6 +1374,7 @@ fn main() {
             second_close: true,
             abrupt_end: false,
             close_in_flight_at_drop: true,
+            pool_op_at_drop: true,
         },
     )];
     s.run_part(p, case_strategy(), run_fd);
